@@ -72,6 +72,7 @@ ExactWhy(a, o) ==
       ELSE IF [k \in 1..Len(a.shape) |-> Len(o.kept[k])] # [k \in 1..Len(a.shape) |-> Len(exp[k])] THEN "wrong-ranks"
       ELSE IF o.kept # exp THEN "wrong-leading-vectors"
       ELSE IF ~o.core_ok THEN "core-is-not-data-times-transposed-factors"
+      ELSE IF ~o.request_untouched THEN "rank-request-modified"
       ELSE "ok"
 
 ---------------------------------------------------------------------------
@@ -83,6 +84,8 @@ HosvdObsWhy(a, o) ==
   ELSE IF a.auto /\ o.relerr9 > o.tol9 + Tol9 THEN "error-bound-exceeded"
   ELSE IF ~a.auto /\ o.ranks # a.ranks THEN "ranks-not-the-requested-ones"
   ELSE IF o.ranks_out_of_range THEN "rank-out-of-range"
+  \* the rank request is an argument: the chosen ranks are reported through the result, not written into it
+  ELSE IF ~o.request_untouched THEN "rank-request-modified"
   ELSE "ok"
 
 TuckerObsWhy(a, o) ==
